@@ -80,3 +80,21 @@ pub fn jwk_text(id: &str) -> Option<&'static str> {
 pub fn jwk(id: &str) -> Option<Jwk> {
     jwk_text(id).map(|t| serde_json::from_str(t).unwrap())
 }
+
+/// The public key of `id` in the byte forms an attacker could try as an HMAC secret: PEM text, DER SubjectPublicKeyInfo,
+/// and the raw key (uncompressed EC point / 32-byte Ed25519 key) - the latter is what jsonwebtoken's DecodingKey holds.
+pub fn pub_forms(id: &str) -> Vec<(&'static str, Vec<u8>)> {
+    use base64::Engine;
+    let pem = match id {
+        "K1" => K1_PUB,
+        "K2" => K2_PUB,
+        "KE1" => KE1_PUB,
+        "KE2" => KE2_PUB,
+        _ => return vec![],
+    };
+    let b64: String = pem.lines().filter(|l| !l.starts_with("-----")).collect();
+    let der = base64::engine::general_purpose::STANDARD.decode(b64).unwrap_or_default();
+    let raw_len = if family(id) == "EC" { 65 } else { 32 };
+    let raw = der[der.len().saturating_sub(raw_len)..].to_vec();
+    vec![("pem", pem.as_bytes().to_vec()), ("der", der), ("raw", raw)]
+}
